@@ -11,6 +11,8 @@ From Verif Require Proofs.RegistryTie.
 (* the tie by translation of types.function_lookup (last theorem of this file); required in the header so that coqdep
    records the dependency on the generated file (see harness/PYMINI.md) *)
 From Verif Require Model.Compile Model.PyMini Model.PrimsApi Model.PrimsCompiler Gen.SrcLookup Proofs.SrcLookup.
+(* the tie by translation of the expression-level typing path (bld-compiler4, end of this file) *)
+From Verif Require Model.PrimsSelect Model.PrimsExprs Gen.SrcExprs Proofs.SrcExprs Proofs.SrcExprsFunction.
 Open Scope Z_scope.
 
 (* Every accepted expression evaluates, on every row that conforms to the declared column types (and
@@ -350,3 +352,247 @@ Theorem C04_source_function_lookup :
        (Verif.Model.Compile.function_lookup reg name (map (fun i => Verif.Model.Compile.dtype (tbl i)) operands))).
 Proof. exact Verif.Proofs.SrcLookup.function_lookup_src. Qed.
 Print Assumptions C04_source_function_lookup.
+
+(* ================================================================== tie by translation, second part (bld-compiler4)
+   The EXPRESSION-level typing path: Compiler._unaryop / _between / _inop / _binaryop / _function, regenerated as PyMini
+   terms from the imported beanquery.compiler on every run (Gen/SrcExprs.v, harness/vf/src_exprs.py: translator rules
+   X1-X6 on top of K1-K14), compute what Model/Compile.v says - which overload is selected (subclass-aware lookup for
+   unary operators and functions, EXACT match for binary operators and BETWEEN, the first overload for IN), which
+   datatype the node announces (the overload's declared output type, also after constant folding), when an untyped
+   (`object`) operand is cast and to what (the other operand's type, int promoted to Decimal; no cast available =
+   error), and which error is raised when.  Encodings and primitive semantics (trusted): Model/PrimsExprs.v - a class
+   of the registry is a record, calling it constructs a node at the address the allocator [mk] gives it; the
+   theorems assume  tbl (mk n) = n  for the nodes the method constructs.  `self._compile` and types.function_lookup
+   are opaque callables assumed to return (the encoding of) what the model's functions return; function_lookup is tied
+   separately (C04_source_function_lookup). *)
+Module SE := Verif.Proofs.SrcExprs.
+Module SF := Verif.Proofs.SrcExprsFunction.
+Import Verif.Model.PyMini Verif.Model.PrimsApi Verif.Model.PrimsCompiler Verif.Model.PrimsSelect Verif.Model.PrimsExprs.
+Module CC := Verif.Model.Compile.
+
+Theorem C04_source_unaryop :
+  forall (call_ref : nat -> list pv -> pv) (tbl : nat -> CC.cnode) (kids : nat -> list nat)
+         (mro : string -> list string) (msg : string -> list pv -> pv) (updatable : pv -> bool)
+         (upd : pv -> pv -> pv -> pv -> pv) (mk : CC.cnode -> nat) (kC : nat) (ctx : pv) (rest : env)
+         (tyname : string -> string),
+  (forall t, call_ref SE.kN [PStr t] = PStr (tyname t)) ->
+  forall (t0 t1 x : pv) (op : string) (r : CC.result nat CC.cerr),
+  call_ref kC [t0; x] = SE.enc_res (fun a => PTuple [t1; nref a]) r ->
+  (forall a, call_ref SE.kFL [enc_operators; PStr (ast_cls op); PList [nref a]] =
+             SE.enc_cfound true op (CC.function_lookup R.operators op [CC.dtype (tbl a)])) ->
+  (forall a i o, r = CC.Ok a -> CC.function_lookup R.operators op [CC.dtype (tbl a)] = Some (i, o) ->
+                 tbl (mk (CC.NOp op i [tbl a] (CC.ov_out o))) = CC.NOp op i [tbl a] (CC.ov_out o)) ->
+  call_method call_ref (prim_exprs tbl kids mro msg updatable upd mk) Verif.Gen.SrcExprs.compile_unaryop
+    (SE.flds kC ctx rest t0) [SE.UNARY op x] =
+  match r with
+  | CC.Err e => Exc (CompErr e)
+  | CC.Ok a => match CC.build_unary op (tbl a) with
+               | CC.Ok n => Ok (SE.flds kC ctx rest t1, nref (mk n))
+               | CC.Err e => Exc (CompErr e)
+               end
+  end.
+Proof. exact SE.unaryop_src. Qed.
+Print Assumptions C04_source_unaryop.
+
+Theorem C04_source_between :
+  forall (call_ref : nat -> list pv -> pv) (tbl : nat -> CC.cnode) (kids : nat -> list nat)
+         (mro : string -> list string) (msg : string -> list pv -> pv) (updatable : pv -> bool)
+         (upd : pv -> pv -> pv -> pv -> pv) (mk : CC.cnode -> nat) (kC : nat) (ctx : pv) (rest : env)
+         (tyname : string -> string),
+  (forall t, call_ref SE.kN [PStr t] = PStr (tyname t)) ->
+  forall (t0 t1 t2 t3 x lo hi : pv) (ra rl rh : CC.result nat CC.cerr),
+  call_ref kC [t0; x] = SE.enc_res (fun a => PTuple [t1; nref a]) ra ->
+  call_ref kC [t1; lo] = SE.enc_res (fun a => PTuple [t2; nref a]) rl ->
+  call_ref kC [t2; hi] = SE.enc_res (fun a => PTuple [t3; nref a]) rh ->
+  call_method call_ref (prim_exprs tbl kids mro msg updatable upd mk) Verif.Gen.SrcExprs.compile_between
+    (SE.flds kC ctx rest t0) [SE.BETWEEN x lo hi] =
+  match SE.res3 ra rl rh with
+  | CC.Err e => Exc (CompErr e)
+  | CC.Ok (a, l, h) => match CC.build_between (tbl a) (tbl l) (tbl h) with
+                       | CC.Ok n => Ok (SE.flds kC ctx rest t3, nref (mk n))
+                       | CC.Err e => Exc (CompErr e)
+                       end
+  end.
+Proof. exact SE.between_src. Qed.
+Print Assumptions C04_source_between.
+
+Theorem C04_source_inop :
+  forall (call_ref : nat -> list pv -> pv) (tbl : nat -> CC.cnode) (kids : nat -> list nat)
+         (mro : string -> list string) (msg : string -> list pv -> pv) (updatable : pv -> bool)
+         (upd : pv -> pv -> pv -> pv -> pv) (mk : CC.cnode -> nat) (kC : nat) (ctx : pv) (rest : env)
+         (qtb qlim qdist : pv) (qcw : option nat) (qgi : option (list nat)) (qhi : option nat)
+         (qos : option (list (nat * bool)))
+         (t0 t1 t2 x y : pv) (op : string) (ra : CC.result nat CC.cerr) (rr : CC.result SE.rval CC.cerr) (s1d : nat),
+  CC.is_in_op op = true ->
+  call_ref kC [t0; x] = SE.enc_res (fun a => PTuple [t1; nref a]) ra ->
+  call_ref kC [t1; y] = SE.enc_res (fun v => PTuple [t2; SE.enc_rval qtb qlim qdist qcw qgi qhi qos v]) rr ->
+  (forall q, call_ref SE.k1D [q] = nref s1d) -> tbl s1d = CC.NSub1D ->
+  call_method call_ref (prim_exprs tbl kids mro msg updatable upd mk) Verif.Gen.SrcExprs.compile_inop
+    (SE.flds kC ctx rest t0) [SE.INOP op x y] =
+  match ra with
+  | CC.Err e => Exc (CompErr e)
+  | CC.Ok a =>
+      match rr with
+      | CC.Err e => Exc (CompErr e)
+      | CC.Ok v => match CC.build_in_any op (tbl a) (SE.cres_of tbl v) with
+                   | CC.Ok n => Ok (SE.flds kC ctx rest t2, nref (mk n))
+                   | CC.Err e => Exc (CompErr e)
+                   end
+      end
+  end.
+Proof. exact SE.inop_src. Qed.
+Print Assumptions C04_source_inop.
+
+(* the implicit cast: an untyped LEFT operand is cast to the type of the right one and vice versa, an int target is
+   promoted to Decimal (Compile.cast_target), a target without a cast function is the error, and after ONE cast the
+   exact match is tried once more - Compile.build_binary *)
+Theorem C04_source_binaryop :
+  forall (call_ref : nat -> list pv -> pv) (tbl : nat -> CC.cnode) (kids : nat -> list nat)
+         (mro : string -> list string) (msg : string -> list pv -> pv) (updatable : pv -> bool)
+         (upd : pv -> pv -> pv -> pv -> pv) (mk : CC.cnode -> nat) (kC : nat) (ctx : pv) (rest : env)
+         (tyname : string -> string),
+  (forall t, call_ref SE.kN [PStr t] = PStr (tyname t)) ->
+  forall (t0 t1 t2 x y : pv) (op : string) (ra rb : CC.result nat CC.cerr) (ovs : list CC.overload),
+  @CC.assoc (list CC.overload) op R.operators = Some ovs ->
+  call_ref kC [t0; x] = SE.enc_res (fun a => PTuple [t1; nref a]) ra ->
+  call_ref kC [t1; y] = SE.enc_res (fun a => PTuple [t2; nref a]) rb ->
+  (forall name a, call_ref SE.kFL [enc_functions; PStr name; PList [nref a]] =
+                  SE.enc_cfound false name (CC.function_lookup R.functions name [CC.dtype (tbl a)])) ->
+  (forall a b n, ra = CC.Ok a -> rb = CC.Ok b -> In n (SE.binary_allocs op (tbl a) (tbl b)) -> tbl (mk n) = n) ->
+  call_method call_ref (prim_exprs tbl kids mro msg updatable upd mk) Verif.Gen.SrcExprs.compile_binaryop
+    (SE.flds kC ctx rest t0) [SE.INOP op x y] =
+  match ra with
+  | CC.Err e => Exc (CompErr e)
+  | CC.Ok a =>
+      match rb with
+      | CC.Err e => Exc (CompErr e)
+      | CC.Ok b => match CC.build_binary op (tbl a) (tbl b) with
+                   | CC.Ok n => Ok (SE.flds kC ctx rest t2, nref (mk n))
+                   | CC.Err e => Exc (CompErr e)
+                   end
+      end
+  end.
+Proof. exact SE.binaryop_src. Qed.
+Print Assumptions C04_source_binaryop.
+
+(* `while True` of _binaryop is translated by unrolling it three times; a fourth pass would evaluate the primitive
+   "unroll:exhausted", which has no meaning (SE.guard_is_stuck).  It is never reached: the interpretation is never
+   Stuck - the loop ends within three passes (two), because no cast function of the registry announces `object`
+   (SE.casts_checked, kernel-computed over the registry snapshot). *)
+Theorem C04_source_binaryop_terminates :
+  forall (call_ref : nat -> list pv -> pv) (tbl : nat -> CC.cnode) (kids : nat -> list nat)
+         (mro : string -> list string) (msg : string -> list pv -> pv) (updatable : pv -> bool)
+         (upd : pv -> pv -> pv -> pv -> pv) (mk : CC.cnode -> nat) (kC : nat) (ctx : pv) (rest : env)
+         (tyname : string -> string),
+  (forall t, call_ref SE.kN [PStr t] = PStr (tyname t)) ->
+  forall (t0 t1 t2 x y : pv) (op : string) (ra rb : CC.result nat CC.cerr) (ovs : list CC.overload),
+  @CC.assoc (list CC.overload) op R.operators = Some ovs ->
+  call_ref kC [t0; x] = SE.enc_res (fun a => PTuple [t1; nref a]) ra ->
+  call_ref kC [t1; y] = SE.enc_res (fun a => PTuple [t2; nref a]) rb ->
+  (forall name a, call_ref SE.kFL [enc_functions; PStr name; PList [nref a]] =
+                  SE.enc_cfound false name (CC.function_lookup R.functions name [CC.dtype (tbl a)])) ->
+  (forall a b n, ra = CC.Ok a -> rb = CC.Ok b -> In n (SE.binary_allocs op (tbl a) (tbl b)) -> tbl (mk n) = n) ->
+  Verif.Gen.SrcExprs.unroll_passes = 3%nat
+  /\ (forall tbl' kids' mro' msg' updatable' upd' mk',
+        prim_exprs tbl' kids' mro' msg' updatable' upd' mk' "unroll:exhausted" [] = Stuck)
+  /\ call_method call_ref (prim_exprs tbl kids mro msg updatable upd mk) Verif.Gen.SrcExprs.compile_binaryop
+       (SE.flds kC ctx rest t0) [SE.INOP op x y] <> Stuck.
+Proof.
+  intros. split; [reflexivity|]. split; [intros; reflexivity|]. eapply SE.binaryop_terminates; eassumption.
+Qed.
+Print Assumptions C04_source_binaryop_terminates.
+
+(* Compiler._function: operands compiled left to right (the table threaded through), coalesce() checked and built, a
+   failed lookup is the error, the selected class applied to (context, operands), a PURE function over constants only
+   folded to a constant of the function's announced type - Compile.build_function, for every function name other than
+   the three rewritten meta functions *)
+Theorem C04_source_function :
+  forall (call_ref : nat -> list pv -> pv) (tbl : nat -> CC.cnode) (kids : nat -> list nat)
+         (mro : string -> list string) (msg : string -> list pv -> pv) (updatable : pv -> bool)
+         (upd : pv -> pv -> pv -> pv -> pv) (mk : CC.cnode -> nat) (kC : nat) (ctx : pv) (rest : env)
+         (rc : pv -> pv -> CC.result (pv * nat) CC.cerr),
+  (forall t x, call_ref kC [t; x] = SE.enc_res (fun p => PTuple [fst p; nref (snd p)]) (rc t x)) ->
+  forall (tb : CC.table) (t0 pinfo : pv) (fname : string) (xs : list pv),
+  SF.is_meta fname = false ->
+  (forall ops, call_ref SE.kFL [enc_functions; PStr fname; PList (map nref ops)] =
+               SE.enc_cfound false fname (CC.function_lookup R.functions fname (map (fun i => CC.dtype (tbl i)) ops))) ->
+  (forall t1 ops i o, SF.seq_compile rc t0 xs = CC.Ok (t1, ops) ->
+     CC.function_lookup R.functions fname (map (fun i => CC.dtype (tbl i)) ops) = Some (i, o) ->
+     tbl (mk (func_node fname i o (map tbl ops))) = func_node fname i o (map tbl ops)) ->
+  call_method call_ref (prim_exprs tbl kids mro msg updatable upd mk) Verif.Gen.SrcExprs.compile_function
+    (SE.flds kC ctx rest t0) [SF.FUNC fname xs pinfo] =
+  match SF.seq_compile rc t0 xs with
+  | CC.Err e => Exc (CompErr e)
+  | CC.Ok (t1, ops) =>
+      match CC.build_function tb fname (map tbl ops) with
+      | CC.Ok n => Ok (SE.flds kC ctx rest t1, nref (mk n))
+      | CC.Err e => Exc (CompErr e)
+      end
+  end.
+Proof. exact SF.function_model_src. Qed.
+Print Assumptions C04_source_function.
+
+(* ... and for EVERY name, the three meta functions included: meta(k) / entry_meta(k) / any_meta(k) - once the lookup
+   has accepted them - return what compiling getitem(meta, k) / getitem(entry.meta, k) / getitem(meta, k,
+   getitem(entry.meta, k)) returns (SF.meta_node), with the table that compilation leaves behind *)
+Theorem C04_source_function_flow :
+  forall (call_ref : nat -> list pv -> pv) (tbl : nat -> CC.cnode) (kids : nat -> list nat)
+         (mro : string -> list string) (msg : string -> list pv -> pv) (updatable : pv -> bool)
+         (upd : pv -> pv -> pv -> pv -> pv) (mk : CC.cnode -> nat) (kC : nat) (ctx : pv) (rest : env)
+         (rc : pv -> pv -> CC.result (pv * nat) CC.cerr),
+  (forall t x, call_ref kC [t; x] = SE.enc_res (fun p => PTuple [fst p; nref (snd p)]) (rc t x)) ->
+  forall (t0 pinfo : pv) (fname : string) (xs : list pv),
+  (forall ops, call_ref SE.kFL [enc_functions; PStr fname; PList (map nref ops)] =
+               SE.enc_cfound false fname (CC.function_lookup R.functions fname (map (fun i => CC.dtype (tbl i)) ops))) ->
+  (forall t1 ops i o, SF.seq_compile rc t0 xs = CC.Ok (t1, ops) ->
+     CC.function_lookup R.functions fname (map (fun i => CC.dtype (tbl i)) ops) = Some (i, o) ->
+     tbl (mk (func_node fname i o (map tbl ops))) = func_node fname i o (map tbl ops)) ->
+  call_method call_ref (prim_exprs tbl kids mro msg updatable upd mk) Verif.Gen.SrcExprs.compile_function
+    (SE.flds kC ctx rest t0) [SF.FUNC fname xs pinfo] =
+  match SF.seq_compile rc t0 xs with
+  | CC.Err e => Exc (CompErr e)
+  | CC.Ok (t1, ops) => SF.p_function tbl mk kC ctx rest rc t1 fname xs pinfo ops
+  end.
+Proof. exact SF.function_src. Qed.
+Print Assumptions C04_source_function_flow.
+
+(* the hypotheses are satisfiable and the interpretation really runs.  `m + n` with m untyped (object) and n an int
+   column: the LEFT operand is cast with decimal() - int is promoted to Decimal -, then Add(Decimal, int) matches:
+   heap 0 = m, 1 = n, 2 = decimal(m), 3 = the Add node; what the interpreted source returns is what the model builds *)
+Definition ex_tbl (i : nat) : CC.cnode :=
+  let m := CC.NCol "m" "object" in
+  let n := CC.NCol "n" "int" in
+  let c := CC.NFunc "decimal" 0 [m] "Decimal" false in
+  match i with
+  | 0%nat => m
+  | 1%nat => n
+  | 2%nat => c
+  | _ => match CC.exact_lookup "Add" ["Decimal"; "int"] with
+         | Some (j, o) => CC.NOp "Add" j [c; n] (CC.ov_out o)
+         | None => m
+         end
+  end%string.
+Definition ex_mk (n : CC.cnode) : nat := match n with CC.NFunc _ _ _ _ _ => 2%nat | _ => 3%nat end.
+Definition ex_call (k : nat) (args : list pv) : pv :=
+  match k, args with
+  | 9%nat, [t; PV (VInt z)] => PTuple [t; nref (Z.to_nat z)]          (* self._compile *)
+  | 0%nat, [_; PV (VStr nm); PList [x]] =>                            (* types.function_lookup(FUNCTIONS, name, [x]) *)
+      match as_nref x with
+      | Some i => SE.enc_cfound false (unzs nm) (CC.function_lookup R.functions (unzs nm) [CC.dtype (ex_tbl i)])
+      | None => PNone
+      end
+  | 1%nat, _ => PStr ""                                               (* types.name *)
+  | _, _ => PNone
+  end.
+Example C04_source_binaryop_example :
+  call_method ex_call
+    (prim_exprs ex_tbl (fun _ => []) (fun _ => []) (fun _ _ => PNone) (fun _ => false) (fun _ _ _ _ => PNone) ex_mk)
+    Verif.Gen.SrcExprs.compile_binaryop (SE.flds 9 PNone [] PNone) [SE.INOP "Add" (PInt 0) (PInt 1)]
+  = Ok (SE.flds 9 PNone [] PNone, nref 3)
+  /\ CC.build_binary "Add" (ex_tbl 0) (ex_tbl 1) = CC.Ok (ex_tbl 3)
+  /\ (forall n, In n (SE.binary_allocs "Add" (ex_tbl 0) (ex_tbl 1)) -> ex_tbl (ex_mk n) = n)
+  /\ CC.dtype (ex_tbl 3) = "Decimal"%string.
+Proof.
+  split; [vm_compute; reflexivity|]. split; [vm_compute; reflexivity|]. split; [|vm_compute; reflexivity].
+  intros n H. vm_compute in H. destruct H as [<-|[<-|[]]]; vm_compute; reflexivity.
+Qed.
